@@ -366,6 +366,7 @@ def c08(run):
     from rules import r_misc12
     r_misc12.run_no_callout_in_window(run, P)
     r_misc12.run_counter_decrement(run, P)
+    r_misc12.run_inserted_detached(run, P)   # a held message that is released enters the retransmit queue with no stale link to the delay queue
     from rules import r_delayq
     r_delayq.run(run, P)                 # if the session fails, each held Confirmable is reported by a NACK
     from rules import r_midzero
@@ -394,6 +395,7 @@ def c06(run):
     r_misc12.run_unlink_before_callout(run, P)
     r_misc12.run_min_update(run, P)
     r_misc12.run_delta_inherited(run, P)
+    r_misc12.run_inserted_detached(run, P)
     r_misc12.run_one_nack_per_disconnect(run, P)
     from rules import r_cnt
     r_cnt.run_counted_queued(run, P)     # a counted Confirmable is queued for retransmission (or un-counted): it cannot vanish without an outcome
